@@ -90,6 +90,15 @@ def eval_gas(case):
             viol.append(V("gas/rho-Bg-standard-mass", f"rho_g*B_g={rb.mean()!r}, standard-condition mass content "
                           f"M p_sc/(R T_sc 5.615)={ref!r}", case=case, observed=float(rb.mean()), expected=ref,
                           tol=REL_CONST))
+    # viscosity increases with pressure LOCALLY too: a dense geometric sweep of the isotherm from 5 psia to p_r = 30
+    sweep = np.geomspace(5.0, 30.0 * ppc, 300)
+    mu_s = np.array([gas.viscosity_Sutton(T, float(q), tpc, ppc, g) for q in sweep])
+    ds = np.diff(mu_s)
+    if not np.all(ds > 0):
+        k = int(np.argmin(ds))
+        viol.append(V("gas/viscosity-increasing/sweep", f"mu_g falls from {mu_s[k]:.9g} at p={sweep[k]:.6g} to {mu_s[k + 1]:.9g} at "
+                      f"p={sweep[k + 1]:.6g} ({int(np.sum(ds <= 0))} of 299 steps of the isotherm sweep)", case=case,
+                      observed=[float(mu_s[k]), float(mu_s[k + 1])]))
     d = np.diff(mus)
     if d.size and not np.all(d > 0):
         k = int(np.argmin(d))
@@ -212,7 +221,7 @@ def cases(tier, seed):
         out.append({"phase": "gas", "gravity": g, "T": T, "contaminants": list(cont), "dryness": dry,
                     "pressures": sorted(pgas)})
     apis = [12.0, 35.0, 55.0] + ([20.0, 45.0] if thorough else [])
-    for T, api, g, gor in itertools.product([80.0, 200.0, 350.0], apis, [0.56, 0.8, 1.3], [5.0, 20.0, 650.0, 2500.0]):
+    for T, api, g, gor in itertools.product([60.0, 80.0, 200.0, 350.0], apis, [0.56, 0.8, 1.3], [5.0, 20.0, 650.0, 2500.0]):
         out.append({"phase": "oil", "T": T, "api": api, "gravity": g, "gor": gor,
                     "fractions": [0.1, 0.5, 0.9, 1.0, 1.5, 2.5], "absolute": [5.0, 14.7, 15.0]})
     for T in ([150.0, 300.0] + ([80.0, 400.0] if thorough else [])):
